@@ -22,12 +22,18 @@ type Program struct {
 	Decls []string // top-level declarations (types, vars, funcs, methods), in order
 	Main  []string // statements of func main, in order (each may span lines)
 	Feat  map[string]int
+	// AfterMain: declarations (var/const/type only) written after func main, so that main is the
+	// last function but not the last declaration
+	AfterMain []string
 }
 
 // Source renders the program. Imports are derived from the text.
 func (p *Program) Source() string {
 	var b strings.Builder
 	body := strings.Join(p.Decls, "\n\n") + "\n\nfunc main() {\n" + indent(strings.Join(p.Main, "\n"), 1) + "\n}\n"
+	if len(p.AfterMain) > 0 {
+		body += "\n" + strings.Join(p.AfterMain, "\n\n") + "\n"
+	}
 	b.WriteString("package main\n\n")
 	var imps []string
 	for _, pkg := range []string{"errors", "fmt", "os", "path/filepath", "runtime", "sort", "strconv", "strings"} {
@@ -1799,7 +1805,23 @@ func GenOpt(opt Options) *rapid.Generator[*Program] {
 			}()
 		}
 		p.Decls = append(p.Decls, g.genStructs()...)
-		p.Decls = append(p.Decls, g.genGlobals()...)
+		globals := g.genGlobals()
+		if g.chance(30, "decl-after-main") {
+			// one var/const/type declaration is written after func main
+			var cand []int
+			for i, d := range globals {
+				if strings.HasPrefix(d, "var ") || strings.HasPrefix(d, "const ") || (strings.HasPrefix(d, "type ") && !strings.Contains(d, "\nfunc ")) {
+					cand = append(cand, i)
+				}
+			}
+			if len(cand) > 0 {
+				i := cand[g.intn(len(cand), "which")]
+				p.AfterMain = append(p.AfterMain, globals[i])
+				globals = append(globals[:i:i], globals[i+1:]...)
+				g.f("decl-after-main")
+			}
+		}
+		p.Decls = append(p.Decls, globals...)
 		p.Decls = append(p.Decls, g.genMethods()...)
 		p.Decls = append(p.Decls, g.genFuncs()...)
 		if g.chance(40, "init") {
